@@ -2,11 +2,14 @@
    the recognisers for ADMONITION_RE / END_RE (used with [.search], flags IGNORECASE|VERBOSE),
    _find_admonitions (one pass, returns the (type, start_idx, end_idx) records or raises) and
    _process_admonitions (reverse order, insertion / deletion by index exactly as the code does).
-     ADMONITION_RE = (?P<indent>\s STAR) @(?P<type>note|warning|todo|bug|history) (?P<posttxt>. STAR)
+     ADMONITION_RE = (?P<indent>\s STAR) (?<!\S)@(?P<type>note|warning|todo|bug|history) (?P<posttxt>. STAR)
      END_RE        = \s STAR @end(?P<type>note|warning|todo|bug|history) \s STAR (?P<posttxt>. STAR)?
-   [search] returns the leftmost match. The first "@type" occurrence is at some position q; the
-   leftmost start of a match is the beginning of the maximal whitespace run that ends at q, so
-   group "indent" is that run and everything before it is not part of the match.
+   [search] returns the leftmost match. The first "@type" occurrence that the look-behind admits
+   (line start or a whitespace character before the "@") is at some position q; the leftmost
+   start of a match is the beginning of the maximal whitespace run that ends at q, so group
+   "indent" is that run and everything before it is not part of the match.
+   As repaired: run = _split_leading_text (a start marker that follows other text goes on a line
+   of its own), then the two passes; end_idx is always the first line after the box.
    Also the word-level specification used by the theorems (words, strip_markers, note_titles).
    Executable definitions only; proofs in Doc/AdmonProofs.v. 7-bit ASCII. *)
 From Ford Require Import Base.Str.
@@ -61,6 +64,19 @@ Fixpoint scan (here : str -> option (str * str)) (x : str) : option (str * str *
     end
   end.
 
+(* the start marker needs a look-behind: [ok] says that the previous character is a whitespace
+   character or that the position is the start of the line *)
+Fixpoint scan_start (ok : bool) (x : str) : option (str * str * str) :=
+  match (if ok then start_here x else None) with
+  | Some (ty, r) => Some ([], ty, r)
+  | None =>
+    match x with
+    | [] => None
+    | c :: x' =>
+      match scan_start (is_space c) x' with Some (b, ty, r) => Some (c :: b, ty, r) | None => None end
+    end
+  end.
+
 (* b = pre ++ ws where ws is the maximal trailing whitespace run *)
 Fixpoint split_tail_ws (b : str) : str * str :=
   match b with
@@ -75,7 +91,7 @@ Fixpoint split_tail_ws (b : str) : str * str :=
 
 (* ADMONITION_RE.search(line): (text before the match, indent, type, posttxt) *)
 Definition adm_search (x : str) : option (str * str * str * str) :=
-  match scan start_here x with
+  match scan_start true x with
   | Some (b, ty, post) => let '(pre, ind) := split_tail_ws b in Some (pre, ind, ty, post)
   | None => None
   end.
@@ -117,7 +133,7 @@ Fixpoint find_loop (idx : nat) (acc : list adm) (cur : option cur_t) (l : list s
   match l with
   | [] =>
     match cur with
-    | Some c => Ok (acc ++ [close_at c (idx - 1)])
+    | Some c => Ok (acc ++ [close_at c idx])   (* end_idx = len(lines) *)
     | None => Ok acc
     end
   | line :: rest =>
@@ -179,34 +195,33 @@ Definition title_line (ind ty : str) : str := ind ++ s "@note " ++ capitalize ty
 (* ---------- one iteration of the loop in _process_admonitions ---------- *)
 Definition step (a : adm) (lines : list str) : result (list str) :=
   let '(ty, st, en) := a in
-  match nth_error lines en with
+  (* if idx < len(lines) and (end := END_RE.search(lines[idx])) *)
+  let endm := match nth_error lines en with Some le => end_search le | None => None end in
+  let '(lines1, en1) :=
+    match endm with
+    | Some (pre, _, post) =>
+      let l' := match post with
+                | [] => lines
+                | _ => insert_at (en + 2) post (insert_at (en + 1) [] lines)
+                end in
+      let l'' := set_at en pre l' in
+      if all_space pre then (delete_at en l'', en) else (l'', S en)
+    | None => (lines, en)
+    end in
+  (* the lines up to, not including, the first line after the box *)
+  let end_line := Nat.min (length lines1) en1 in
+  let lines2 := indent_range (S st) end_line lines1 in
+  match nth_error lines2 st with
   | None => Err EIndex
-  | Some le =>
-    let '(lines1, en1) :=
-      match end_search le with
-      | Some (pre, _, post) =>
-        let l' := match post with
-                  | [] => lines
-                  | _ => insert_at (en + 2) post (insert_at (en + 1) [] lines)
-                  end in
-        let l'' := set_at en pre l' in
-        if all_space pre then (delete_at en l'', en) else (l'', S en)
-      | None => (lines, en)
-      end in
-    let end_line := Nat.min (length lines1) (S en1) in
-    let lines2 := indent_range (S st) end_line lines1 in
-    match nth_error lines2 st with
-    | None => Err EIndex
-    | Some ls =>
-      match adm_search ls with
-      | None => Err EMissingStart
-      | Some (_, ind, _, post) =>
-        let lines3 := set_at st (title_line ind ty) lines2 in
-        Ok (match post with
-            | [] => lines3
-            | _ => insert_at (S st) (INDENT ++ ind ++ post) lines3
-            end)
-      end
+  | Some ls =>
+    match adm_search ls with
+    | None => Err EMissingStart
+    | Some (_, ind, _, post) =>
+      let lines3 := set_at st (title_line ind ty) lines2 in
+      Ok (match post with
+          | [] => lines3
+          | _ => insert_at (S st) (INDENT ++ ind ++ post) lines3
+          end)
     end
   end.
 
@@ -214,8 +229,22 @@ Definition step (a : adm) (lines : list str) : result (list str) :=
 Definition process_admonitions (adms : list adm) (lines : list str) : result (list str) :=
   fold_left (fun acc a => bind acc (step a)) (rev adms) (Ok lines).
 
-Definition run (l : list str) : result (list str) :=
+(* ---------- _split_leading_text ---------- *)
+(* pretxt[: len(pretxt) - len(pretxt.lstrip())] *)
+Definition lead_ws (x : str) : str := firstn (length x - length (lstrip x)) x.
+
+Definition split_line (x : str) : list str :=
+  match adm_search x with
+  | Some (c :: pre, _, ty, post) => [c :: pre; lead_ws (c :: pre) ++ at_ch :: ty ++ post]
+  | _ => [x]
+  end.
+Definition split_leading_text (l : list str) : list str := flat_map split_line l.
+
+(* the two passes on the lines they are given *)
+Definition run_passes (l : list str) : result (list str) :=
   bind (find_admonitions l) (fun adms => process_admonitions adms l).
+
+Definition run (l : list str) : result (list str) := run_passes (split_leading_text l).
 
 (* ---------- specification: words ---------- *)
 (* str.split(): maximal runs of non-whitespace characters *)
@@ -251,35 +280,34 @@ Definition note_titles (ws : list str) : list str := flat_map note_title ws.
 Definition spec_words (l : list str) : list str := note_titles (strip_markers (words l)).
 
 (* ---------- the region in which the word theorem holds ---------- *)
-(* a line is clean when its markers are whole whitespace-delimited words, a start marker is the
-   first word of its line, and there is at most one start and one end marker on it *)
+(* a line given to the two passes is clean when its markers are whole whitespace-delimited words,
+   a start marker is the first word of the line, and there is at most one start and one end
+   marker on it *)
 Definition next_is_space_or_end (x : str) : bool :=
   match x with [] => true | c :: _ => is_space c end.
+Definition is_none {A} (o : option A) : bool := match o with None => true | Some _ => false end.
 
 Definition start_clean (x : str) : bool :=
-  match scan start_here x with
+  match scan_start true x with
   | None => true
   | Some (b, _, post) =>
-    all_space b                                   (* nothing but blanks before "@type" *)
+    all_space b                                  (* nothing but blanks before "@type" *)
     && next_is_space_or_end post                 (* "@type" ends a word *)
-    && match scan start_here post with None => true | Some _ => false end
-  end.
-(* the confirmed defect: text before "@type" on the same line *)
-Definition pretext_region (x : str) : bool :=
-  match scan start_here x with
-  | None => false
-  | Some (b, _, _) => negb (all_space b)
+    && is_none (scan_start false post)           (* no second start marker *)
   end.
 
 Definition end_clean (x : str) : bool :=
   match scan end_here x with
   | None => true
   | Some (b, _, r) =>
-    (is_empty b || match snd (split_tail_ws b) with [] => false | _ => true end)  (* starts a word *)
-    && next_is_space_or_end r
-    && match scan end_here r with None => true | Some _ => false end
-    && match scan start_here r with None => true | Some _ => false end
+    (is_empty b || negb (is_empty (snd (split_tail_ws b))))   (* "@endtype" starts a word *)
+    && next_is_space_or_end r                                  (* and ends one *)
+    && is_none (scan end_here r)                               (* no second end marker *)
+    && is_none (scan_start false r)                            (* no start marker after it *)
   end.
 
-Definition line_clean (x : str) : bool := start_clean x && end_clean x.
+Definition piece_clean (x : str) : bool := start_clean x && end_clean x.
+(* a line of the comment is clean when the pieces _split_leading_text makes of it are: text may
+   precede a start marker *)
+Definition line_clean (x : str) : bool := forallb piece_clean (split_line x).
 Definition admon_ok (l : list str) : bool := forallb line_clean l.
